@@ -22,11 +22,12 @@ import HapVerif.Drv.EntityMap
 import HapVerif.Drv.BleSession
 import HapVerif.Drv.BleMeta
 import HapVerif.Drv.CoapEvent
+import HapVerif.Drv.BleReassembly
 
 /-! Line protocol: one operation per stdin line -> one canonical line on stdout. -/
 
 def handlers : List (List String → Option String) :=
-  [HapVerif.Drv.Tlv.handle, HapVerif.Drv.Crypto.handle, HapVerif.Drv.SecureFrame.handle, HapVerif.Drv.Pdu.handle, HapVerif.Drv.Http.handle, HapVerif.Drv.Tlv8Struct.handle, HapVerif.Drv.Protocol.handle, HapVerif.Drv.CharList.handle, HapVerif.Drv.Convert.handle, HapVerif.Drv.Request.handle, HapVerif.Drv.Srp.handle, HapVerif.Drv.PairVerify.handle, HapVerif.Drv.PairSetup.handle, HapVerif.Drv.Counters.handle, HapVerif.Drv.Broadcast.handle, HapVerif.Drv.Store.handle, HapVerif.Drv.Waiters.handle, HapVerif.Drv.Reconnect.handle, HapVerif.Drv.ReqConn.handle, HapVerif.Drv.Subs.handle, HapVerif.Drv.EntityMap.handle, HapVerif.Drv.BleSession.handle, HapVerif.Drv.BleMeta.handle, HapVerif.Drv.CoapEvent.handle]
+  [HapVerif.Drv.Tlv.handle, HapVerif.Drv.Crypto.handle, HapVerif.Drv.SecureFrame.handle, HapVerif.Drv.Pdu.handle, HapVerif.Drv.Http.handle, HapVerif.Drv.Tlv8Struct.handle, HapVerif.Drv.Protocol.handle, HapVerif.Drv.CharList.handle, HapVerif.Drv.Convert.handle, HapVerif.Drv.Request.handle, HapVerif.Drv.Srp.handle, HapVerif.Drv.PairVerify.handle, HapVerif.Drv.PairSetup.handle, HapVerif.Drv.Counters.handle, HapVerif.Drv.Broadcast.handle, HapVerif.Drv.Store.handle, HapVerif.Drv.Waiters.handle, HapVerif.Drv.Reconnect.handle, HapVerif.Drv.ReqConn.handle, HapVerif.Drv.Subs.handle, HapVerif.Drv.EntityMap.handle, HapVerif.Drv.BleSession.handle, HapVerif.Drv.BleMeta.handle, HapVerif.Drv.CoapEvent.handle, HapVerif.Drv.BleReassembly.handle]
 
 def dispatch (toks : List String) : String :=
   match handlers.findSome? (fun h => h toks) with
